@@ -2,6 +2,7 @@
 
     python -m standins.object_checks <check[,check]> --tier quick|thorough --seed N --out file.json
 """
+from standins import guard
 import argparse
 import io
 import itertools
@@ -84,6 +85,29 @@ def with_explicit_defaults(T, v):
     return v
 
 
+def with_refined_defaults(T, v, bridge):
+    """same abstract value; every absent DEFAULT leaf member is assigned its default explicitly, as a value object of a
+    compatible *refined subtype* of the member type (wide range / size constraint) -- a different Python object of a
+    different derived type that denotes the same value"""
+    from pyasn1.type import constraint
+    obj = bridge.to_value(T, v)
+    spec = bridge.to_type(T)
+    did = False
+    for n, ft, m in T['fields']:
+        if n in v or not isinstance(m, tuple):
+            continue
+        member = spec.componentType[n].asn1Object
+        if ft['k'] in ('INTEGER', 'ENUMERATED'):
+            refined = member.subtype(subtypeSpec=constraint.ValueRangeConstraint(-2 ** 80, 2 ** 80))
+        elif ft['k'] in ('OCTETSTRING', 'UTF8String', 'IA5String', 'PrintableString', 'BMPString'):
+            refined = member.subtype(subtypeSpec=constraint.ValueSizeConstraint(0, 10 ** 6))
+        else:
+            continue
+        obj.setComponentByName(n, refined.clone(bridge.scalar_arg(ft, m[1])))
+        did = True
+    return obj if did else None
+
+
 def read_only_uses(val, M):
     """reads only: each may legitimately raise for some values (e.g. REAL comparison via float); what matters
     for C04 is that none of them changes the canonical bytes afterwards"""
@@ -96,6 +120,36 @@ def read_only_uses(val, M):
     for u in uses:
         try:
             u()
+        except Exception:
+            pass
+    try:
+        deep_read(val, 0)
+    except Exception:
+        pass
+
+
+def deep_read(obj, depth):
+    """read every member of every member (the reads instantiate unset OPTIONAL/DEFAULT members all the way down)"""
+    from pyasn1.type import univ
+    if depth > 4:
+        return
+    if isinstance(obj, (univ.SequenceOf, univ.SetOf)):
+        for x in obj:
+            deep_read(x, depth + 1)
+    elif isinstance(obj, (univ.Sequence, univ.Set)):
+        for name in list(obj.keys()):
+            try:
+                c = obj[name]
+            except Exception:
+                continue
+            try:
+                c.isValue and c.prettyPrint()
+            except Exception:
+                pass
+            deep_read(c, depth + 1)
+    elif isinstance(obj, univ.Choice):
+        try:
+            deep_read(obj.getComponent(), depth + 1)
         except Exception:
             pass
 
@@ -148,6 +202,13 @@ def chk_histories(T, v, M, rng):
         variants.append(('explicit-defaults', bridge.to_value(T, with_explicit_defaults(T, v))))
         variants.append(('clone', base.clone(cloneValueFlag=True) if T['k'] in x690.CONSTRUCTED or T['k'] == 'CHOICE'
                          else base.clone()))
+        if T['k'] in x690.CONSTRUCTED or T['k'] == 'CHOICE':
+            # deep copy of a value whose positions were filled in another order
+            variants.append(('permuted-clone', build_permuted(T, v, bridge, rng).clone(cloneValueFlag=True)))
+        if T['k'] in ('SEQUENCE', 'SET'):
+            r = with_refined_defaults(T, v, bridge)
+            if r is not None:
+                variants.append(('explicit-defaults-of-a-refined-subtype', r))
         spec = bridge.to_type(T)
         for mode in (dict(defMode=False), dict(maxChunkSize=2), dict(defMode=False, maxChunkSize=1)):
             variants.append(('ber%r->decode' % (sorted(mode.items()),), bd.decode(be.encode(base, **mode), asn1Spec=spec)[0]))
@@ -341,8 +402,15 @@ def well_typed(T, obj, bridge):
             r = well_typed(ft, c, bridge)
             if r:
                 return '%s: %s' % (n, r)
+        for n in T.get('present', ()):
+            idx = [f[0] for f in T['fields']].index(n)
+            c = obj.getComponentByPosition(idx, instantiate=False, default=None)
+            if c is None or c is base.noValue or not c.isValue:
+                return 'member %s must be present (WITH COMPONENTS)' % n
         return None
     if k in ('SEQUENCEOF', 'SETOF'):
+        if 'size' in T and not (T['size'][0] <= len(obj) <= T['size'][1]):
+            return '%d elements, outside SIZE (%d..%d)' % (len(obj), T['size'][0], T['size'][1])
         for i in range(len(obj)):
             r = well_typed(T['elem'], obj[i], bridge)
             if r:
@@ -358,6 +426,10 @@ def well_typed(T, obj, bridge):
         return 'is a %s, declared %s' % (obj.__class__.__name__, spec.__class__.__name__)
     if obj.tagSet != spec.tagSet:
         return 'tags %r, declared %r' % (obj.tagSet, spec.tagSet)
+    if 'range' in T and not (T['range'][0] <= int(obj) <= T['range'][1]):
+        return 'value %d outside (%d..%d)' % (int(obj), T['range'][0], T['range'][1])
+    if 'size' in T and not (T['size'][0] <= len(obj) <= T['size'][1]):
+        return 'size %d outside SIZE (%d..%d)' % (len(obj), T['size'][0], T['size'][1])
     return None
 
 
@@ -393,7 +465,17 @@ def chk_accepts_wellformed(T, v, M, rng, nmut=12):
         e = de.encode(bridge.to_value(T, v, spec))
     except Exception:
         return [], 0
-    for b in mutations(e, rng, nmut):
+    inputs = mutations(e, rng, nmut)
+    # encodings of values of the unconstrained twin type that the constrained type does not contain
+    if T.get('violating'):
+        twin = bridge.strip_constraints(T)
+        for bad in T['violating']:
+            try:
+                inputs.append(de.encode(bridge.to_value(twin, bad)))
+                inputs.append(be.encode(bridge.to_value(twin, bad), defMode=False))
+            except Exception:
+                pass
+    for b in inputs:
         for dname, dec in (('BER', bd), ('DER', dd)):
             n += 1
             try:
@@ -511,7 +593,10 @@ def _run_chunk(args):
     for T, v in pairs:
         for nm in names:
             try:
-                f, n = CHECKS[nm](T, v, M, rng)
+                with guard.time_limit(guard.CASE_SECONDS):
+                    f, n = CHECKS[nm](T, v, M, rng)
+            except guard.CaseTimeout:
+                f, n = [fail(nm, T, v, 'does not terminate within %d s on this case' % guard.CASE_SECONDS)], 1
             except Exception as ex:
                 f, n = [fail(nm, T, v, 'harness error %s: %s' % (type(ex).__name__, ex),
                              trace=traceback.format_exc()[-800:], harness_error=True)], 1
